@@ -97,6 +97,42 @@ pub fn succinct(k: usize) -> Verdict {
     Verdict::check(sp.evaluate(z) == acc, "succinct", format!("evaluate(z) != Horner(compute_coeffs(), z) for k={}", k))
 }
 
+/// larger challenge lists: every coefficient of `compute_coeffs` against the defining product
+/// h(X) = prod_i (1 + u_i X^(2^(k-i))) (coefficient of X^j = product of the u_i whose bit 2^(k-i) is set in j),
+/// and `evaluate` against that product at a symbolic point; each comparison is a monomial identity, so the
+/// bound on k is limited by the 2^k coefficients only
+pub fn succinct_wide(k: usize) -> Verdict {
+    let ch: Vec<SF> = (0..k).map(|i| sym(&format!("u{}", i))).collect();
+    let z = sym("z");
+    let sp = SuccinctCheckPolynomial(ch.clone());
+    let co = sp.compute_coeffs();
+    if co.len() != 1 << k {
+        return Verdict::viol("succinct-len", format!("compute_coeffs returned {} coefficients for k={}", co.len(), k));
+    }
+    for (j, c) in co.iter().enumerate() {
+        let mut want = SF::one();
+        for i in 1..=k {
+            if j & (1 << (k - i)) != 0 {
+                want *= ch[i - 1];
+            }
+        }
+        if *c != want {
+            return Verdict::viol("succinct", format!("coefficient {} of compute_coeffs() is not the product of the challenges selected by its bits (k={})", j, k));
+        }
+    }
+    // z^(2^e) by repeated squaring, independent of Field::pow
+    let mut pw = vec![z];
+    for e in 1..k {
+        let last = pw[e - 1];
+        pw.push(last * last);
+    }
+    let mut prod = SF::one();
+    for i in 1..=k {
+        prod *= SF::one() + ch[i - 1] * pw[k - i];
+    }
+    Verdict::check(sp.evaluate(z) == prod, "succinct", format!("evaluate(z) != prod (1 + u_i z^(2^(k-i))) for k={}", k))
+}
+
 /// the small conversions and predicates the combination code relies on (concrete; one path)
 pub fn lc_term_helpers() -> Verdict {
     use core::convert::TryInto;
